@@ -7,8 +7,8 @@ import (
 	"github.com/pojntfx/stfs/pkg/config"
 )
 
-// The C16 findings are open (not repaired): these tests document the behaviour and PASS while the defect
-// is present; they call t.Skip when the behaviour is gone.
+// TestKnown_*: open findings (not repaired): these tests document the behaviour and PASS while the defect is
+// present; they call t.Skip when the behaviour is gone. TestFinding_*: repaired, fail when the defect returns.
 
 func fileSize(t *testing.T, p string) int64 {
 	st, err := os.Stat(p)
@@ -18,8 +18,8 @@ func fileSize(t *testing.T, p string) int64 {
 	return st.Size()
 }
 
-// C16-torn-data-makes-initialize-overwrite
-func TestKnown_C16_TornDataMakesInitializeAppendSecondRoot(t *testing.T) {
+// fixed: C16-torn-data-makes-initialize-overwrite
+func TestFinding_C16_TornDataDoesNotMakeInitializeStartOver(t *testing.T) {
 	dir := t.TempDir()
 	e := newFS(t, dir, false, config.PipeConfig{})
 	e.init(t)
@@ -37,25 +37,32 @@ func TestKnown_C16_TornDataMakesInitializeAppendSecondRoot(t *testing.T) {
 	e2 := newFS(t, dir, false, config.PipeConfig{})
 	_, err := e2.stfs.Initialize("/", os.ModePerm)
 	after := fileSize(t, e.drive)
-	tr := tree(t, e2.stfs)
-	if after == before && contains(tr, "/d") {
-		t.Skip("defect no longer present: nothing appended, /d still visible")
+	if after != before {
+		t.Errorf("Initialize over a tape with a root and a torn last record appended %d bytes (Initialize = %v)", after-before, err)
 	}
-	t.Logf("Initialize = %v, drive grew by %d bytes, tree = %v", err, after-before, tr)
+	if err == nil {
+		if tr := tree(t, e2.stfs); !contains(tr, "/d") {
+			t.Errorf("Initialize succeeded but /d is gone: %v", tr)
+		}
+	}
 }
 
-// C16-empty-drive-file-cannot-be-initialized
-func TestKnown_C16_EmptyDriveFile(t *testing.T) {
+// fixed: C16-empty-drive-file-cannot-be-initialized
+func TestFinding_C16_EmptyDriveFileGetsARoot(t *testing.T) {
 	dir := t.TempDir()
 	e := newFS(t, dir, false, config.PipeConfig{})
 	if err := os.WriteFile(e.drive, nil, 0o600); err != nil {
 		t.Fatal(err)
 	}
-	_, err := e.stfs.Initialize("/", os.ModePerm)
-	if err == nil {
-		t.Skip("defect no longer present")
+	if _, err := e.stfs.Initialize("/", os.ModePerm); err != nil {
+		t.Fatalf("Initialize over an empty drive file: %v", err)
 	}
-	t.Logf("Initialize over an empty drive file: %v", err)
+	if err := e.stfs.Mkdir("/d", 0o755); err != nil {
+		t.Fatal(err)
+	}
+	if _, err := e.stfs.Stat("/d"); err != nil {
+		t.Fatal(err)
+	}
 }
 
 // C16-stale-index-is-trusted
